@@ -250,4 +250,63 @@ example : onDataSink (some .rpSeeder) true true [0, 2] false true
 example : onDataSink (some .data) true true ([0, 2] ++ List.replicate 20 (7 : UInt8)) false true
     ([0, 2] ++ List.replicate 30 (7 : UInt8)) = .ownPacket := by decide
 
+/-- **Data from a foreign address is never taken for circuit data.**  `on_data` treats a DATA message as data of an own
+    circuit only if the FULL address (ip and port) of the peer that delivered it equals the circuit's first hop; this also
+    holds for DATA messages nested in a tunnel-community packet that came back through the exit (their "delivering
+    peer" is the Internet origin).  From any other address the message takes the exit branch, never a local sink. -/
+theorem foreign_source_never_local (ct : CType) (src hop : Nat × Nat) (h : src ≠ hop) (pfx data : Bytes)
+    (tunnelEp destZero originSet : Bool) :
+    onDataSink (some ct) originSet (fromFirstHop src hop) pfx tunnelEp destZero data =
+      (if destZero then .droppedZeroDest else .exitSocket) := by
+  have hf : fromFirstHop src hop = false := by
+    obtain ⟨a, b⟩ := src; obtain ⟨c, d⟩ := hop
+    simp only [fromFirstHop]
+    by_cases h1 : a = c
+    · have : b ≠ d := fun h2 => h (by rw [h1, h2])
+      simp [h1, this]
+    · simp [h1]
+  simp [onDataSink, hf]
+
+example : fromFirstHop (167772161, 5000) (167772161, 6000) = false := by decide   -- same IP, other port
+
+/-! ### the exit's outside socket -/
+
+/-- **Nothing handed to the exit socket is lost or duplicated.**  For every schedule of `sendto` calls (literal
+    addresses and host names, any number of them for the same host), host-name resolutions completing and the transports
+    becoming ready, as long as no more than 10 datagrams have to wait at any time (the queue's bound): every datagram is,
+    exactly as often as it was handed over, either emitted, queued or awaiting its resolution. -/
+theorem exit_socket_conserves (dns : Nat → Nat) (evs : List XEv) (s : XSock)
+    (h : s.queue.length + s.pending.length + (evs.flatMap XEv.sentId).length ≤ 10) (x : Nat) :
+    (s.run dns evs).held.count x = s.held.count x + (evs.flatMap XEv.sentId).count x :=
+  XSock.run_held dns evs s h x
+
+/-- three datagrams for one host name while the transports are still being created: all three leave, once each -/
+example : ((XSock.run (fun h => h + 100) {}
+      [.send 1 (.name 7), .send 2 (.name 7), .send 3 (.name 7), .resolved, .transportsReady, .resolved, .resolved]).out
+    = [(1, 107), (2, 107), (3, 107)]) := by decide
+
+/-- **A retiring exit socket stays in the routing table as long as it is open**: `covered` (every open socket has its
+    exit entry) is preserved by opening a socket, by the start of a removal (nothing changes during
+    `remove_tunnel_delay`) and by its end (entry and socket go together) … -/
+theorem retiring_keeps_covered (x : ExitNode A) (cid : Nat) (h : x.covered = true) :
+    (x.openSocket cid).covered = true ∧ (x.removeStart cid).covered = true ∧ (x.removeFinish cid).covered = true :=
+  ⟨ExitNode.openSocket_covered x cid h, ExitNode.removeStart_covered x cid h, ExitNode.removeFinish_covered x cid h⟩
+
+/-- … and the return traffic of a covered open socket always leaves under a backward layer of the exit key, never in
+    clear; -/
+theorem return_traffic_never_clear (L : A.Laws) (x : ExitNode A) (cid target : Nat) (m : Bytes)
+    (hcov : x.covered = true) (hopen : cid ∈ x.openSocks) (hc : List.lookup cid x.nd.circuits = none) :
+    ∃ k c0, (sendCell x.nd target ⟨cid, false, false, m⟩).2 = some (target, c0) ∧
+      c0.msg = A.enc k .bwd x.nd.ctr m ∧ c0.msg ≠ m :=
+  covered_return_encrypted L x cid target m hcov hopen hc
+
+/-- whereas a cell for a circuit id without any table entry is sent exactly as it is (`outgoing_crypto` falls through):
+    this is what an open socket that outlived its entry would do to return traffic. -/
+theorem uncovered_is_clear (nd : Node A) (target cid : Nat) (m : Bytes)
+    (hc : List.lookup cid nd.circuits = none) (hx : List.lookup cid nd.exits = none) (hr : List.lookup cid nd.relays = none) :
+    (sendCell nd target ⟨cid, false, false, m⟩).2 = some (target, ⟨cid, false, false, m⟩) :=
+  unknown_circuit_sent_in_clear nd target cid m hc hx hr
+
+example : (ExitNode.mk Ex.x [11]).covered = true ∧ ((ExitNode.mk Ex.x [11]).removeFinish 11).openSocks = [] := by decide
+
 end Ipv8.C04
